@@ -706,7 +706,7 @@ def section9():
                f"(the listener side once more, applications that drop futures or restate credit in the end-to-end runs, delivery-counts at the wrap, "
                f"peers that encode differently from us, legal-but-unusual frames, totals across several arrays, queues that are full at the wrong moment); "
                f"every one is caught now, and seven of them also by a proof obligation that did not exist before. A short fifth round (`Cxx-e1/e2`, {n5} changes "
-               f"for six properties whose checks had been extended in the fourth session: C02, C06, C10, C12, C14, C17) followed at the end of that session: {m5} first missed.\n")
+               f"for six properties whose checks had been extended in the fourth session: C02, C06, C10, C12, C14, C17) followed at the end of that session: {m5} were missed when first tried and all 12 are caught now (C17-e1 by a proof obligation only: a failing input needs 65536 live sessions); the two for C10 led to the models of resumed and posted deliveries, which in turn led to the defects of §8 found in the last hours. Three earlier changes to `transaction/session.rs` (C10-c2, C18-b2, C18-d1) no longer applied after those repairs and were rebased (originals kept as `patch.orig.diff`); they are still caught.\n")
     out += ["| id | property | the change | caught by quick | how | caught by other checks |", "|---|---|---|---|---|---|"]
     for j in rows:
         summ = j.get('summary', '').replace('|', '/')
